@@ -895,7 +895,10 @@ func (v *Variables) Unset(name string) error {
 // Dump returns a map of the structure of all variables in scope
 func (v *Variables) Dump() any {
 	v.mutex.Lock()
-	vars := v.vars // TODO: This isn't thread safe
+	vars := make(map[string]*variable, len(v.vars))
+	for name, val := range v.vars {
+		vars[name] = val
+	}
 	v.mutex.Unlock()
 
 	return vars
